@@ -53,6 +53,10 @@ type ixWorld struct {
 	values  [][]string
 	victims []sto.Blob
 	deletes []sto.Blob
+	// orphans: permanodes delivered only after ALL of their delete claims have been delivered
+	// concurrently (several out-of-order delete claims noting their needs at the same time)
+	orphans       []sto.Blob
+	orphanDeletes []sto.Blob
 }
 
 var (
@@ -87,6 +91,11 @@ func getIxWorld(np, nc, nv int) *ixWorld {
 		v := s.Permanode(fmt.Sprintf("c14-victim-%d", j))
 		w.victims = append(w.victims, v)
 		w.deletes = append(w.deletes, s.Delete(v.Ref, hw.T(2005, 50+j)))
+	}
+	for j := 0; j < 6; j++ {
+		o := s.Permanode(fmt.Sprintf("c14-orphan-%d", j))
+		w.orphans = append(w.orphans, o)
+		w.orphanDeletes = append(w.orphanDeletes, s.Delete(o.Ref, hw.T(2006, 70+j)))
 	}
 	ixWorlds[key] = w
 	return w
@@ -270,6 +279,31 @@ func runIndexHistory(root string, job jobSpec) *histResult {
 		}(slot, j)
 		slot++
 	}
+	// orphan deletes: all delivered at once before any of their targets exists
+	var owg sync.WaitGroup
+	orphanOK := make([]bool, len(w.orphans))
+	for j := range w.orphanDeletes {
+		wg.Add(1)
+		owg.Add(1)
+		go func(j int) {
+			defer wg.Done()
+			defer owg.Done()
+			<-start
+			_, _, ok := deliver(-1, -1, fmt.Sprintf("orphan-delete%d", j), w.orphanDeletes[j])
+			orphanOK[j] = ok
+		}(j)
+	}
+	wg.Add(1)
+	go func() {
+		defer wg.Done()
+		<-start
+		owg.Wait()
+		for j := range w.orphans {
+			if _, _, ok := deliver(-1, -1, fmt.Sprintf("orphan%d", j), w.orphans[j]); !ok {
+				orphanOK[j] = false
+			}
+		}
+	}()
 	// readers
 	for rd := 0; rd < job.Readers; rd++ {
 		wg.Add(1)
@@ -338,6 +372,15 @@ func runIndexHistory(root string, job jobSpec) *histResult {
 		audit = append(audit, ixDeleted(x, clk, auditSlot, "audit-Corpus.IsDeleted", "cdel", j, w.victims[j].Ref, true))
 	}
 	recs[auditSlot] = audit
+	for j := range w.orphans {
+		if !orphanOK[j] {
+			continue
+		}
+		res.Events = append(res.Events, "concurrent-out-of-order-deletes")
+		if !x.Index.IsDeleted(w.orphans[j].Ref) {
+			report("lost/index/concurrent-out-of-order-delete", fmt.Sprintf("after quiescence Index.IsDeleted(orphan %d) = false although the permanode and its (earlier, concurrently delivered) delete claim were both delivered", j), map[string]any{"orphan": j})
+		}
+	}
 	// explicit eventual checks (the registers above accept a never-indexed out-of-order delete)
 	for _, a := range audit {
 		switch {
